@@ -1,10 +1,13 @@
 """C04 — see properties.jsonl."""
 from . import proc_common as PC
+from . import actor_common as AC
 from . import inbox_common as IC
 from .proc_common import TRUSTED_BASE, ASSUMPTIONS
 
 COQ_FILES = ["Proc.v", "ProcExec.v", "ProcProofs.v", "PropsProc.v", "DeliverExec.v", "ProcSchedExec.v"]
 THEOREMS = ["C04_lifecycle_word", "C04_nothing_after_unregister", "C04_spawn_returns_after_started", "C04_spawn_started_when_handlers_do_not_panic", "C04_oracle_sound", "C03_start_picks_up_backlog"]
+COQ_FILES = COQ_FILES + AC.COQ_FILES
+THEOREMS = THEOREMS + ['C04_lifecycle_word_all_schedules']
 RULE = ("scripted single-actor scenarios on the real engine: the Started handler of the first incarnation forms the first batch "
         "from {message, panicking message, Poison(self), Stop(self)} (exhaustive to length 4/5), plus panics in Initialized/Started/"
         "per incarnation, InternalError panics, handlers that send more messages, MaxRestarts 0-3, middleware chains 0-3 and external "
@@ -21,4 +24,4 @@ class Part(PC.ProcPart):
     prop = 4
 
 
-PARTS = [Part(), IC.DeliverSpawnRace(), IC.DeliverStopRace(), PC.ProcSched()]
+PARTS = [Part(), IC.DeliverSpawnRace(), IC.DeliverStopRace(), PC.ProcSched(), AC.ActorSched()]
